@@ -239,7 +239,7 @@ func c16RunHandoff(m *vk.M, idx int, hc c16HandoffCase) (nontrivial, ok bool) {
 	s.retire()
 	if m.WantSample() && idx%11 == 1 {
 		m.Sample(map[string]any{"scenario": hc, "wait_parked_before_gate1_opened": staged, "wait_returned_while_handed_off_batch_was_gated": early,
-			"batches(trigger,size)": st.order, "wait_task_pairs_checked": st.waitsChecked})
+			"batches(T=threshold t=tick q=quit f=flush w=wait,size)": st.order, "wait_task_pairs_checked": st.waitsChecked})
 	}
 	return staged && hc.Batch > 1, true
 }
@@ -504,7 +504,7 @@ func c16RunIdle(m *vk.M, idx int, ic c16IdleCase) (class string, ok bool) {
 	m.Count("flusher_starts", int64(created))
 	m.Count("flusher_quits", int64(stopped))
 	if m.WantSample() && idx%53 == 1 {
-		m.Sample(map[string]any{"scenario": ic, "observed": class, "flusher_starts": created, "flusher_quits": stopped, "batches(trigger,size)": st.order})
+		m.Sample(map[string]any{"scenario": ic, "observed": class, "flusher_starts": created, "flusher_quits": stopped, "batches(T=threshold t=tick q=quit f=flush w=wait,size)": st.order})
 	}
 	return class, true
 }
